@@ -198,9 +198,19 @@ Proof. exact ssub_prog_disciplined. Qed.
     (checked against graphql-ws and graphql-transport-ws sessions whose environment changes right
     after the acknowledgement) *)
 Theorem C13_ws_features_fixed_at_init : forall h env F,
-  (forall st, In st h -> st <> PInit) ->
+  (forall st, In st h -> is_init st = false) ->
   forall o, In o (ws_effective env (Some F) h) -> o = Some F.
 Proof. exact ws_frozen. Qed.
+
+(** with Config.HandleGraphQLWSInit: the connection runs with Features(context the hook returned for
+    the LATEST accepted connection_init) — every operation after the last init [PInitWith f] of a
+    history runs with f (checked against sessions of both subprotocols that send two inits granting
+    different sets in their payloads) *)
+Theorem C13_ws_features_of_latest_init : forall h1 f h2 env conn,
+  (forall st, In st h2 -> is_init st = false) ->
+  forall o, In o (ws_effective env conn (h1 ++ PInitWith f :: h2)) ->
+  In o (ws_effective env conn h1) \/ o = Some f.
+Proof. exact ws_latest_init. Qed.
 
 (** ** composition with C04's validator model (coq/Vld, imported read-only; Feat/FeaturesVld.v,
     Feat/FeaturesVldRules.v)
@@ -462,6 +472,7 @@ Print Assumptions C13_selection_set_fuel_suffices.
 Print Assumptions C13_feature_subscription_eq_partial.
 Print Assumptions C13_subscription_consumer_disciplined.
 Print Assumptions C13_ws_features_fixed_at_init.
+Print Assumptions C13_ws_features_of_latest_init.
 Print Assumptions C13_C04_type_info_eq.
 Print Assumptions C13_C04_small_rule_groups.
 Print Assumptions C13_C04_variables_rule.
